@@ -93,6 +93,15 @@ class Binder:
         return out
 
 
+# the documented per-field capacity override of the C target (option enable_override_variable_array_capacity + a user
+# definition of <type>_<field>_ARRAY_CAPACITY_): the reduced type has the same length prefix and a smaller valid range
+CAP_OVERRIDE: typing.Dict[int, int] = {}  # id(pydsdl array type object of the field) -> user capacity
+
+
+def vcap(dt) -> int:
+    return CAP_OVERRIDE.get(id(dt), dt.capacity)
+
+
 class Obj:
     """a (sub)object: root region id + member path"""
 
@@ -244,7 +253,7 @@ class WireSpec:
         rec = None
         if isinstance(dt, pydsdl.VariableLengthArrayType):
             cnt = shape.get(o.path + ("count",))
-            if cnt is None or cnt > dt.capacity:
+            if cnt is None or cnt > vcap(dt):
                 return mem, off, ERR_BAD_ARRAY_LENGTH
             lt = dt.length_field_type
             mem = self.write_bits(mem, str(self.base + off), lt.bit_length, bvlit(cnt, 64), 64)
@@ -295,7 +304,7 @@ def shape_locations(b: Binder, t: pydsdl.CompositeType, path: typing.Tuple[str, 
 
 def _field_locations(b: Binder, dt, path, mct):
     if isinstance(dt, pydsdl.VariableLengthArrayType):
-        yield (path + ("count",), "count", dt.capacity, dt)
+        yield (path + ("count",), "count", vcap(dt), dt)
     elif isinstance(dt, pydsdl.FixedLengthArrayType) and isinstance(dt.element_type, pydsdl.CompositeType):
         for i in range(dt.capacity):
             yield from shape_locations(b, dt.element_type, path + (str(i),))
@@ -485,10 +494,10 @@ class WireDecoder:
             raw = self.rd(limit, base, off, lt.bit_length, w)
             off = _addo(off, lt.bit_length)
             cntv = self.ex.name_term(f"(bv2nat {raw})", "Int", "count")
-            if self.ex.branch(app(">", cntv, str(dt.capacity))):
+            if self.ex.branch(app(">", cntv, str(vcap(dt)))):
                 d.error = ERR_BAD_ARRAY_LENGTH
                 return off
-            n = self.ex.small_split(cntv, max(1, dt.capacity), known_range=True)
+            n = self.ex.small_split(cntv, max(1, vcap(dt)), known_range=True)
             if n is None:
                 raise ec.COutOfSubset("array length not enumerable")
             rec = self.b.types.records[mct.name]
